@@ -178,6 +178,39 @@ func checkSeq(c seqCase) *mc.Failure {
 	})
 }
 
+// aliasCase: both arguments are views of one backing array.
+type aliasCase struct {
+	S              []int `json:"backing"`
+	A0, A1, B0, B1 int
+}
+
+func checkAliasedLCS(c aliasCase) *mc.Failure {
+	return mc.GuardT("lcs-aliased", c, func() *mc.Failure {
+		s := append([]int(nil), c.S...)
+		a, b := s[c.A0:c.A1], s[c.B0:c.B1]
+		wa, wb := append([]int(nil), a...), append([]int(nil), b...)
+		eq := func(x, y int) bool { return x == y }
+		for _, fn := range []string{"LCS", "LCSFunc"} {
+			var got []int
+			if fn == "LCS" {
+				got = slice.LCS(a, b)
+			} else {
+				got = slice.LCSFunc(a, b, eq)
+			}
+			if !mc.EqInts(s, c.S) {
+				return mc.Failf(0, "%s on two views of one array modified it: %v -> %v", fn, c.S, s)
+			}
+			if !isSubseq(got, wa, eq) || !isSubseq(got, wb, eq) {
+				return mc.Failf(0, "%s(s[%d:%d], s[%d:%d]) of s=%v is %v: not a common subsequence of %v and %v", fn, c.A0, c.A1, c.B0, c.B1, c.S, got, wa, wb)
+			}
+			if want := lcsLen(wa, wb, eq); len(got) != want {
+				return mc.Failf(0, "%s(s[%d:%d], s[%d:%d]) of s=%v is %v: length %d, optimum %d", fn, c.A0, c.A1, c.B0, c.B1, c.S, got, len(got), want)
+			}
+		}
+		return nil
+	})
+}
+
 // hugeCase describes a pair built by mc.HugePair.
 type hugeCase struct {
 	Kind string `json:"kind"`
@@ -353,6 +386,42 @@ func main() {
 					return mc.Failf(-1, "bad trace: %v", err)
 				}
 				return checkLCS(p)
+			},
+		},
+		mc.Harness{
+			Name: "lcs-aliased",
+			Explore: func(r *mc.Run) {
+				seqs := mc.AllSeqs(2, mc.Pick(r, 6, 8))
+				var evals int64
+				mc.ParallelFor(len(seqs), r.Workers, func(i int) {
+					s := seqs[i]
+					n := len(s)
+					var k int64
+					for a0 := 0; a0 <= n; a0++ {
+						for a1 := a0; a1 <= n; a1++ {
+							for b0 := 0; b0 <= n; b0++ {
+								for b1 := b0; b1 <= n; b1++ {
+									c := aliasCase{s, a0, a1, b0, b1}
+									if f := checkAliasedLCS(c); f != nil {
+										r.Violation(mc.Case{Harness: "lcs-aliased", Trace: mc.J(c), Msg: f.Msg})
+									}
+									k++
+								}
+							}
+						}
+					}
+					atomic.AddInt64(&evals, k)
+				})
+				r.AddEval(int64(len(seqs)), evals, evals, evals)
+				r.Rule("LCS and LCSFunc with both arguments every pair of subslices of one backing array (same start, prefixes of each other, overlapping, disjoint)")
+				r.Sample(aliasCase{[]int{0, 1, 0, 1, 1}, 0, 5, 0, 3})
+			},
+			Replay: func(c mc.Case) *mc.Failure {
+				var a aliasCase
+				if err := mc.Unmarshal(c.Trace, &a); err != nil {
+					return mc.Failf(-1, "bad trace: %v", err)
+				}
+				return checkAliasedLCS(a)
 			},
 		},
 		mc.Harness{
